@@ -113,7 +113,7 @@ pub fn hist_cfg(id: &str, thorough: bool) -> Option<HistCfg> {
         "C07" => HistCfg {
             id: "C07",
             on: vec!["C07", "C01"],
-            mix: Mix { resolve: 8, update: 9, meldrefresh: 8, commit: 6, timetravel: 0, ..base },
+            mix: Mix { resolve: 8, update: 9, meldrefresh: 8, commit: 6, timetravel: 0, stagert: 3, ..base },
             max_len: len(60, 120),
             n_min: 2,
             n_max: 3,
@@ -135,13 +135,13 @@ pub fn hist_cfg(id: &str, thorough: bool) -> Option<HistCfg> {
         "C11" => HistCfg {
             id: "C11",
             on: vec!["C11"],
-            mix: Mix { rich_info: true, commit: 7, meldrefresh: 6, meld: 3, filecopy: 3, foreign: 2, faultymeld: 2, ..base },
+            mix: Mix { rich_info: true, commit: 7, meldrefresh: 6, meld: 3, filecopy: 3, foreign: 2, faultymeld: 2, tornblock: 2, ..base },
             max_len: len(50, 120),
             n_min: 2,
             n_max: 4,
             with_fin: true,
             nontrivial: |k| c(k, "c11_rich_info_blocks") > 0 && c(k, "melds_copying_items") > 0,
-            rule: "history with rich commit metadata; after every step every item on every replica is checked for name = SHA-256(bytes) (+ block index), storage growth only, no attempted overwrite with different bytes, equal bytes wherever held; files that are neither block nor pack (7 names, 0-5000 bytes) appear in storages and are carried along by meld: they are exempt from the naming rule but must arrive byte-identical and are never rewritten; non-trivial = blocks with non-trivial metadata were melded",
+            rule: "history with rich commit metadata; after every step every item on every replica is checked for name = SHA-256(bytes) (+ block index), storage growth only, no attempted overwrite with different bytes, equal bytes wherever held; files that are neither block nor pack (7 names, 0-5000 bytes) appear in storages and are carried along by meld: they are exempt from the naming rule but must arrive byte-identical and are never rewritten; block files that arrive half-written in one replica's storage (and are completed later) must never be passed on by meld; non-trivial = blocks with non-trivial metadata were melded",
         },
         "C12" => HistCfg {
             id: "C12",
@@ -235,6 +235,7 @@ pub fn fin_plan(n_max: u8) -> BoxedStrategy<FinPlan> {
         foreign: 0,
         faultymeld: 0,
         snaprace: 0,
+        tornblock: 0,
         rich: false,
         rich_info: false,
     };
@@ -273,6 +274,7 @@ pub fn run_case(cfg: &HistCfg, case: &Case) -> CaseOutcome {
     }
     if result.is_ok() {
         if let Some(fin) = &case.fin {
+            w.complete_torn(None);
             result = w.converge(fin);
         }
     }
